@@ -675,7 +675,7 @@ Definition entry_ok (e : inv_entry) : bool :=
 Definition exceptions : list (str * str * str) :=
   map (fun x => match x with (a, b, c) => (s2l a, s2l b, s2l c) end)
   [ ("src/git/diff_tree_to_tree.rs", "diff_tree_to_tree",
-     "UNCOVERED: git diff --raw -z without --no-renames under RawDiffParse: the records follow diff.renames (known class C12-K2)");
+     "UNCOVERED: git diff --raw -z without --no-renames under RawDiffParse: the records follow diff.renames (known class C12-K4)");
     ("src/git/refs.rs", "grep_ai_notes",
      "UNCOVERED: git grep -nI without --no-color under General: the records follow color.ui / color.grep (git-ai search only)");
     ("src/authorship/range_authorship.rs", "get_git_diff_stats_for_range",
